@@ -238,6 +238,7 @@ func corpus() []*History {
 			opCall(3004, 1, []int64{127}, 113, 1000, 2, false, 0, 0),       // D: one-shot
 			opCall(3005, 1, []int64{127}, 113, 1000, 2, true, 2, 2),        // E: killed in flight
 			opModCall(3006, 1, []int64{127}, 113, 1000, 2, false, 0, 0, 1), // F: module-created
+			opCall(3007, 1, []int64{127}, 112, 1000, 2, true, 2, -1),       // G: killed in flight, never answered
 			opCtx("kill", 3004, 113),                                       // refused: not repeated
 			opCtx("pause", 3004, 113),                                      // refused: not repeated
 			opCtx("pause", 3006, 113),                                      // refused: module-created
@@ -247,6 +248,7 @@ func corpus() []*History {
 			opRespond(3001, 1, 10, 0, 126, 200, 3, true),  // refused: already answered
 			opRespond(3003, 1, 10, 0, 127, 200, 4, false), // accepted, slashed although super mode
 			opCtx("kill", 3005, 113),
+			opCtx("kill", 3007, 112),
 			upd,                                          // refused: completed
 			opCtx("start", 3005, 113),                    // refused: completed
 			opRespond(3005, 1, 10, 0, 127, 200, 5, true), // accepted: the batch of a killed context is still answerable
